@@ -1,4 +1,5 @@
 import LeptosModel.Proofs.RViewM
+import LeptosModel.Proofs.RViewShow
 /-!
 # Proofs/RViewMTree — state trees of views whose dynamic parts read signals and memos, `Show` included
 -/
@@ -17,9 +18,6 @@ def View.coreS : View → Bool
   | .forKeyed _ _ => true
   | .scope _ _ _ => false
   | .forRows _ _ _ => false
-
-/-- the body of the memo in front of a `Show` -/
-def showBody (c : Expr) : Expr := .ite c (.lit 1) (.lit 0)
 
 /-- `m` is the memo of a `Show` over the condition `c` -/
 def ShowMemo (K : Nat) (st : St) (m : Nat) (c : Expr) : Prop :=
@@ -307,5 +305,92 @@ theorem held_okM {K : Nat} {st : St} : ∀ (v : View) (t : RState),
       exact ⟨by simp [effsOf], fun h' hh => by cases hh⟩
   | scope sid d kid _ => intro t h _ _ _ _; cases t <;> simp only [GoodM] at h
   | forRows sel lists row _ => intro t h _ _ _ _; cases t <;> simp only [GoodM] at h
+
+/-- every effect of a tree carries its predicate -/
+theorem GoodAttrP.effP {P : EP} : ∀ {a : Attr} {s : AState}, GoodAttrP P a s → ∀ e ∈ s.effs, ∃ x cur, P e x cur := by
+  intro a s h e he
+  cases a <;> cases s <;> simp only [GoodAttrP] at h <;>
+    simp only [AState.effs, List.mem_singleton, List.not_mem_nil] at he
+  all_goals (subst he; exact ⟨_, _, h.2.2⟩)
+
+theorem GoodAttrsP.effP {P : EP} : ∀ {as : List Attr} {ss : List AState}, GoodAttrsP P as ss →
+    ∀ e ∈ ss.flatMap AState.effs, ∃ x cur, P e x cur
+  | [], [], _, e, he => by simp at he
+  | _ :: _, s :: ss, h, e, he => by
+    simp only [List.flatMap_cons, List.mem_append] at he
+    rcases he with he | he
+    · exact h.1.effP e he
+    · exact GoodAttrsP.effP h.2 e he
+  | [], _ :: _, h, _, _ => h.elim
+  | _ :: _, [], h, _, _ => h.elim
+
+theorem GoodM.effP {P : EP} {Q : Nat → Expr → Prop} : ∀ (v : View) (t : RState), GoodM P Q v t →
+    ∀ e ∈ effsOf t, ∃ x cur, P e x cur := by
+  intro v
+  induction v with
+  | text s => intro t h e he; cases t <;> simp only [GoodM] at h; simp [effsOf] at he
+  | unit => intro t h e he; cases t <;> simp only [GoodM] at h; simp [effsOf] at he
+  | elem tag attrs kid ih =>
+    intro t h e he
+    cases t <;> simp only [GoodM] at h
+    next n tag' as k =>
+      simp only [effsOf, List.mem_append] at he
+      rcases he with he | he
+      · exact h.2.1.effP e he
+      · exact ih k h.2.2 e he
+  | seq a b iha ihb =>
+    intro t h e he
+    cases t <;> simp only [GoodM] at h
+    next sa sb =>
+      simp only [effsOf, List.mem_append] at he
+      rcases he with he | he
+      · exact iha sa h.1 e he
+      · exact ihb sb h.2 e he
+  | dynText x =>
+    intro t h e he
+    cases t <;> simp only [GoodM] at h
+    next e' x' n last =>
+      simp only [effsOf, List.mem_singleton] at he; subst he; exact ⟨_, _, h.2⟩
+  | either c a b iha ihb =>
+    intro t h e he
+    cases t <;> simp only [GoodM] at h
+    next e' c' a' b' left inner =>
+      simp only [effsOf, List.mem_cons] at he
+      rcases he with he | he
+      · subst he; exact ⟨_, _, h.2.2.2.1⟩
+      · cases hl : left with
+        | true => exact iha inner (h.2.2.2.2.1 hl) e he
+        | false => exact ihb inner (h.2.2.2.2.2 hl) e he
+  | «show» c a b iha ihb =>
+    intro t h e he
+    cases t <;> simp only [GoodM] at h
+    next e' m c' a' b' left inner =>
+      simp only [effsOf, List.mem_cons] at he
+      rcases he with he | he
+      · subst he; exact ⟨_, _, h.2.2.2.1⟩
+      · cases hl : left with
+        | true => exact iha inner (h.2.2.2.2.2.2.1 hl) e he
+        | false => exact ihb inner (h.2.2.2.2.2.2.2 hl) e he
+  | forKeyed sel lists =>
+    intro t h e he
+    cases t <;> simp only [GoodM] at h
+    next e' sel' lists' ks texts =>
+      simp only [effsOf, List.mem_singleton] at he; subst he; exact ⟨_, _, h.2.2.1⟩
+  | scope sid d kid _ => intro t h _ _; cases t <;> simp only [GoodM] at h
+  | forRows sel lists row _ => intro t h _ _; cases t <;> simp only [GoodM] at h
+
+theorem GoodAttrsP.wf_extM {K : Nat} {A : Nat → Prop} {st st' : St} {as : List Attr} {ss : List AState}
+    (h : GoodAttrsP (EffWf K st) as ss) (hx : ExtM K A st st') : GoodAttrsP (EffWf K st') as ss :=
+  h.map (fun _ _ _ _ hp => hp.extM hx)
+
+theorem GoodM.wf_extM {K : Nat} {A : Nat → Prop} {st st' : St} {v : View} {t : RState}
+    (h : GoodM (EffWf K st) (ShowMemo K st) v t) (hx : ExtM K A st st') :
+    GoodM (EffWf K st') (ShowMemo K st') v t :=
+  GoodM.map v t h (fun _ _ _ _ hp => hp.extM hx) (fun _ _ hq => hq.ext hx)
+
+/-- the kind of an effect of the program -/
+theorem RM.kind_eff {K : Nat} {st : St} (h : RM K st) {e : Nat} {x : Expr} (hp : st.prog[e]? = some (.eff x)) :
+    (st.rs.get e).kind = .eff := by
+  rw [h.top.quiet.inv.kind e _ hp]; rfl
 
 end Leptos.RView
